@@ -83,4 +83,3 @@ func (r *Rand) FloatBits() float64 {
 		}
 	}
 }
-
